@@ -418,7 +418,13 @@ def handleSideEffect (ctx : Ctx F) (nodeIndex : Nat) (parseNode : ParseNode) : O
 def handleNestedExpression (ctx : Ctx F) (currentRootJump : Nat) (nodeIndex : Nat) (parseNode : ParseNode) : Outcome (Ctx F) :=
   match parseNode.right with
   | none =>
-    let (data, addr) := addConst ctx.data (.expr currentRootJump)
+    -- commit df89d39: an empty nested expression names the expression it is written in (as reapply does), not the
+    -- out-of-line root being built:  match nodes.get(node_index) { Some(Some(node)) => .., _ => current_root_jump }
+    let containing :=
+      match ctx.nodes[nodeIndex]? with
+      | some (some node) => node.containingExpressionJump
+      | _ => currentRootJump
+    let (data, addr) := addConst ctx.data (.expr containing)
     .ok { ctx with data := pushInstr data .put (some addr) (some nodeIndex) }
   | some right =>
     let jumpIndex := getJumpTableLen ctx.data
